@@ -15,6 +15,7 @@ from harness import corpus, par, respjudge, schedreplay, tlc
 SDL = """
 type Query { hello: String, n: Int, echo(x: Int!): Int, nn: Int!, err: Int, items: [Item], fnan: Float, finf: Float }
 type Item { nnitem: Int!, erritem: Int, echo(values: [Int]): Int, ok: Int }
+type Subscription { tick: Int }
 """
 DOCS = {
     "anon": "{ hello }",
@@ -28,6 +29,7 @@ DOCS = {
     "failing": "{ nn err items { nnitem erritem ok } hello }",
     "listArgs": "query A($v: Int) { items { echo(values: [1, $v]) } }",
     "floats": "{ fnan finf }",
+    "subscr": "subscription S { tick }",
 }
 VARS = {"none": None, "ok": {"v": 3}, "wrongtype": {"v": "three"}, "null": {"v": None}}
 EXT = {"code": 7, "detail": ["x", 1]}
